@@ -305,3 +305,17 @@ pub fn special_scalar_texts() -> Vec<Vec<u8>> {
 	}
 	out
 }
+
+/// Every printable ASCII character substituted for X in each template (callers filter by validity):
+/// one representative per character class cannot see a scanner that singles out one member.
+pub fn ascii_sweep(templates: &[&str]) -> Vec<Vec<u8>> {
+	let mut out = Vec::new();
+	for c in 0x21u8..0x7F {
+		for t in templates {
+			out.push(t.replace('X', &(c as char).to_string()).into_bytes());
+		}
+	}
+	out.sort();
+	out.dedup();
+	out
+}
